@@ -424,6 +424,33 @@ fn mesh_cases(out: &mut Out, rng: &mut Rng, seed: u64, count: usize, thorough: b
         emit(out, rng, m, n);
         n += 1;
     }
+    // huge meshes (uncompressed image of 1 .. 40 MiB, around the powers of two): implementation oracle only,
+    // the lines would be tens of megabytes of hex for the model driver
+    let budgets: &[usize] = if thorough {
+        &[1 << 20, 2 << 20, 4 << 20, 8 << 20, 16 << 20, 32 << 20, 5 << 20, 12 << 20, 40 << 20]
+    } else {
+        &[1 << 20, 8 << 20, 16 << 20]
+    };
+    for (k, budget) in budgets.iter().enumerate() {
+        for shape in 0..2 {
+            // shape 0: positions only; shape 1: every attribute
+            let subset = if shape == 0 { 1usize } else { 255 };
+            let per_vertex: usize = (0..8).filter(|i| subset >> i & 1 == 1).map(|i| ATTRS[i].1 * if ATTRS[i].2 { 2 } else { 4 }).sum();
+            let nv = budget / per_vertex + rng.range(1, 64);
+            let mesh = gen_mesh(rng, &mut images, Some(subset), nv, out);
+            let id = format!("mesh-{}-huge{}-{}", seed, k, shape);
+            let bin = verif::mesh_to_bin(&mesh);
+            match catch(move || verif::bin_to_mesh(&bin)) {
+                Ok(m2) => {
+                    if let Err(e) = mesh_oracle(&mesh, &m2) {
+                        out.oracle_fail("mesh", &id, &format!("round trip of a mesh of {} vertices ({} attribute bytes per vertex) differs in {}", nv, per_vertex, e));
+                    }
+                }
+                Err(p) => out.oracle_fail("mesh", &id, &format!("bin_to_mesh panicked on mesh_to_bin output of a mesh of {} vertices: {}", nv, p)),
+            }
+            out.stat("mesh.size_class.huge_oracle_only");
+        }
+    }
 }
 
 // ---------------------------------------------------------------- lz4 (through the audio-free path: image data only)
@@ -623,6 +650,25 @@ fn image_cases(out: &mut Out, rng: &mut Rng, seed: u64, count: usize, thorough: 
         out.stat(&format!("image.len_class.{}", len.checked_ilog2().map(|x| x as i32).unwrap_or(-1)));
         let malformed = rng.chance(1, 4);
         emit_image(out, rng, &img, &format!("image-{}-{}", seed, n), malformed);
+        // the encoder is called again at once for an image with the very same extent and bytes but another format of the
+        // same texel size, or another dimension (a codec that keeps state between two calls would mix them up)
+        if rng.chance(1, 4) && len > 0 {
+            let same_px: Vec<TextureFormat> = formats.iter().cloned().filter(|g| *g != f && g.block_copy_size(None).unwrap_or(4) as usize == px).collect();
+            let mut sib = img.clone();
+            if !same_px.is_empty() && rng.chance(2, 3) {
+                sib.texture_descriptor.format = *rng.pick(&same_px);
+            } else {
+                sib.texture_descriptor.dimension = match (dimension, h, d) {
+                    (TextureDimension::D1, _, _) => TextureDimension::D2,
+                    (TextureDimension::D2, 1, 1) => TextureDimension::D1,
+                    (TextureDimension::D2, _, _) => TextureDimension::D3,
+                    (TextureDimension::D3, _, 1) => TextureDimension::D2,
+                    (TextureDimension::D3, _, _) => TextureDimension::D3,
+                };
+            }
+            out.stat("image.sibling");
+            emit_image(out, rng, &sib, &format!("image-{}-{}s", seed, n), false);
+        }
         n += 1;
     }
 }
